@@ -41,8 +41,11 @@ MODELLED = ["numpy elementwise semantics of COSPricer.xi/psi/u_put (translated p
             "the masked cells uninitialised: modelled by an arbitrary real `uninit` (the theorems show the result never depends on it)",
             "scipy.stats.norm.cdf: abstract Phi (symmetric, [0,1]-valued, monotone) in the theorems; the Gaussian integral PhiR in the "
             "Interval cases (that PhiR satisfies Phi_like is NOT proved)",
-            "COSPricer._pricing_formula / density: hand model cos_sum / cos_density (finite sum, real part termwise; the complex numbers "
-            "cf(u_k) e^{..} enter as the real data A_k), tied by Interval cases on pricers with 3-5 terms",
+            "COSPricer._pricing_formula / density: hand models cos_sum / cos_density_impl (finite sums, real part termwise; the complex numbers "
+            "cf(u_k) e^{..} enter as the real data A_k resp. B_k), each tied by Interval cases on pricers with 3-5 terms; COSPricer.put's "
+            "x = log(S/K), _interval_a_b (cumulants, bare except) and the characteristic functions themselves are NOT modelled",
+            "exponential-model layer (levy_exponent, omega, drift, log_characteristic_function, std_moment, mean, df): generated on the "
+            "imaginary axis x = -iu by textual substitution 1j*x -> u; their composition exp_mgf is hand-written",
             "FFTPricer._call_prices (FFT, interpolation), the characteristic functions and cumulants: NOT modelled -- covered by the "
             "differential tests only",
             "VG = CGMY(Y=0) is proved for real arguments inside the strip of analyticity; the complex extension used by the "
@@ -51,13 +54,19 @@ ASSUMPTIONS = ["the differential tests hold on the documented box and regime onl
                "truncation error of COS (range l=10, n=10000 terms) and quadrature/interpolation error of FFT (N=2^18, eta=0.25, "
                "alpha=1.5) are NOT bounded by any theorem"]
 THEOREM_NOTES = {
+    "C18_parity_exact": "the forward leg (df*(S*mean - K) = S e^{-dT} - K e^{-rT}) has content (C18_forward_martingale); the option legs do not: "
+                        "COS computes the call FROM the put by parity and FFT the put FROM the call, so the put's (call's) pricing sum enters "
+                        "as the same free number on both sides -- that the sum itself is the right price is not proved",
+    "C18_forward_martingale": "exponential-model layer generated on the imaginary axis x = -iu (1j*x -> u); composition exp_mgf hand-written",
     "C18_bs_closed_form_partial": "partial: lower bounds and monotonicity/convexity in K of the non-degenerate branch need the Gaussian "
-                                  "identity fwd*phi(d1) = K*phi(d2), not available for an abstract Phi; tested only",
-    "C18_cos_is_integral": "about the hand model cos_sum/cos_density of _pricing_formula/density (Model/CosSum.v), tied to the "
-                           "implementation by Interval cases on pricers with 3-5 terms",
-    "C18_shape_from_positive_density_partial": "partial: only put >= 0 and digital >= 0 under f_N >= 0; monotonicity/convexity in K and "
-                                               "the upper bounds are differential tests only",
-    "C18_vg_is_cgmy": "real argument only (see MODELLED)",
+                                  "identity fwd*phi(d1) = K*phi(d2), not available for an abstract Phi; tested only; Phi_like is not "
+                                  "established for norm.cdf/PhiR (only the symmetry, C18_PhiR_symmetric)",
+    "C18_cos_is_integral": "linearity of the integral over the finite cosine family, about the hand model cos_sum/cos_density (tied by Interval "
+                           "cases on pricers with 3-5 terms); the series f_N is COSPricer.density only for K = S (see Model/CosSum.v)",
+    "C18_density_is_series": "cos_density_impl mirrors cosmethod.py:72-82 and is tied to COSPricer.density by Interval cases",
+    "C18_shape_from_positive_density_partial": "partial and conditional: only put >= 0 and digital >= 0, under the hypothesis f_N >= 0 which is "
+                                               "never discharged for a concrete model; monotonicity/convexity in K and all bounds are tests only",
+    "C18_vg_is_cgmy": "real argument only (both u and 1 inside the strip); the raw exponents differ by theta*u, the exponential models agree",
 }
 
 
@@ -242,6 +251,37 @@ def _sum_cases(res, rng, n_cases):
                 f"  rewrite cos_psi_zero; repeat (rewrite cos_psi_nonzero by lra); unfold psi_prim, cos_xi; cbv zeta beta.\n  interval with (i_prec 100).\nQed.")
         res.count(("sum", name, n, which, S, K, T), kind="interval case pricing sum")
         lemmas.append((f"pricing sum {name} n={n} {which}", text))
+    return lemmas
+
+
+def _density_cases(res, rng, n_cases):
+    """COSPricer.density on a pricer with few terms against cos_density_impl (Model/CosSum.v, mirrors cosmethod.py:72-82);
+    B_k = Re(cf(u_k) e^{-i a' u_k}) on the window shifted by log_spot are fed as data"""
+    import numpy as np
+    from rpylib.model import utils as U_
+    from rpylib.model.levymodel.levymodel import ModelType
+    from rpylib.numerical.cosmethod import COSPricer
+    lemmas = []
+    for i in range(n_cases):
+        name = ["BLACKSCHOLES", "HEM", "VG", "MERTON", "CGMY"][i % 5]
+        S, r, d, T = rng.choice([50.0, 100.0]), rng.choice([0.0, 0.02]), rng.choice([0.0, 0.01]), rng.choice([0.25, 1.0])
+        model = U_.helper_model(ModelType[name])(spot=S, r=r, d=d, **_sample(rng, name))
+        n = rng.choice([3, 4, 5])
+        cos = COSPricer(model, n=n)
+        a, b = (float(v) for v in cos._interval_a_b(t=T))
+        x0 = float(model.x0_value())
+        s_val = S * rng.choice([0.9, 1.0, 1.1])
+        val = float(cos.density(time=T, s=np.array([s_val]))[0])
+        a2, b2 = a + x0, b + x0
+        cst = np.arange(n) * np.pi / (b2 - a2)
+        B = (cos.cf(t=T, x=cst) * np.exp(-1j * a2 * cst)).real
+        blist = "; ".join(rlit(float(v)) for v in B)
+        tol = 1e-12 * (1 + abs(val)) + 1e-13 * float(np.sum(np.abs(B))) / (b - a) / s_val * 10
+        text = (f"Lemma case_d{i} : Rabs (cos_density_impl {n - 1} (fun k => nth k [{blist}] 0) {rlit(a)} {rlit(b)} {rlit(x0)} {rlit(s_val)} "
+                f"- {rlit(val)}) <= {rlit(tol)}.\nProof.\n  unfold cos_density_impl, cos_weight; cbv zeta; simpl sum_f_R0; simpl nth; simpl INR.\n"
+                f"  interval with (i_prec 100).\nQed.")
+        res.count(("density", name, n, S, s_val, T), kind="interval case density")
+        lemmas.append((f"density {name} n={n} s={s_val}", text))
     return lemmas
 
 
@@ -475,18 +515,29 @@ def _one_model(res, rng, model, rep, with_fft, viol):
 
 
 def _degenerate_bs(res, viol):
-    """degenerate branch of the closed form = discounted intrinsic (implementation oracle)"""
+    """degenerate branch of the closed form = discounted intrinsic, for scalar AND vector strikes (implementation oracle)"""
     import numpy as np
     from rpylib.model import utils as U_
     from rpylib.model.levymodel.levymodel import ModelType
     from rpylib.numerical.closedform.cfblackscholes import CFBlackScholes
     for (S, sigma, T) in [(100.0, 1e-9, 1.0), (100.0, 0.2, 1e-9), (100.0, 0.0, 2.0)]:
         cf = CFBlackScholes(U_.helper_model(ModelType.BLACKSCHOLES)(spot=S, r=0.03, d=0.01, sigma=sigma))
-        for K in (80.0, 100.0, 125.0):
-            fwd, df = S * math.exp(0.02 * T), math.exp(-0.03 * T)
-            res.count(("bs-degenerate", S, sigma, T, K), kind="closed form degenerate branch")
-            if abs(cf.call(K, T) - df * max(0.0, fwd - K)) > 1e-12 * S or abs(cf.put(K, T) - df * max(0.0, K - fwd)) > 1e-12 * S:
-                viol("degenerate Black-Scholes branch is not the discounted intrinsic value", kind="bs_degenerate", spot=S, sigma=sigma, maturity=T, strike=K)
+        fwd, df = S * math.exp(0.02 * T), math.exp(-0.03 * T)
+        ks = np.array([80.0, 100.0, 125.0])
+        want = {"call": df * np.maximum(0.0, fwd - ks), "put": df * np.maximum(0.0, ks - fwd), "digital": df * (fwd > ks)}
+        for label, fun in (("call", cf.call), ("put", cf.put), ("digital", cf.digital)):
+            for shape, arg in (("vector", ks), ("scalar", 80.0)):
+                res.count(("bs-degenerate", S, sigma, T, label, shape), kind="closed form degenerate branch")
+                rep = dict(kind="bs_degenerate", spot=S, sigma=sigma, maturity=T, quote=label, strike_shape=shape)
+                try:
+                    got = np.atleast_1d(np.asarray(fun(arg, T), dtype=float))
+                except Exception as e:  # noqa
+                    viol(f"degenerate Black-Scholes branch raises {type(e).__name__} for a {shape} strike (the regular branch accepts it)",
+                         exception=f"{type(e).__name__}: {e}", **rep)
+                    continue
+                exp = want[label] if shape == "vector" else want[label][:1]
+                if got.shape != exp.shape or np.any(np.abs(got - exp) > 1e-12 * S):
+                    viol("degenerate Black-Scholes branch is not the discounted intrinsic value", got=got.tolist(), expected=exp.tolist(), **rep)
 
 
 def correspond(res):
@@ -501,7 +552,7 @@ def correspond(res):
         coef = _coefficient_cases(res, rng, 48 if quick else 400)
         simp = _simpson_cases(res, rng)
         bs = _bs_cases(res, rng, 6 if quick else 40)
-        sums = _sum_cases(res, rng, 4 if quick else 20)
+        sums = _sum_cases(res, rng, 4 if quick else 20) + _density_cases(res, rng, 5 if quick else 20)
         _degenerate_bs(res, viol)
         _differential(res, rng, 14 if quick else 150, 6 if quick else 60, viol)
     _run_lemmas(res, "cases_coefficients", coef + simp)
@@ -520,6 +571,18 @@ def replay(path):
     import numpy as np
     data = json.load(open(path))
     print(json.dumps(data, indent=1)[:3000])
+    if data.get("kind") == "bs_degenerate":
+        from rpylib.model import utils as U_
+        from rpylib.model.levymodel.levymodel import ModelType
+        from rpylib.numerical.closedform.cfblackscholes import CFBlackScholes
+        cf = CFBlackScholes(U_.helper_model(ModelType.BLACKSCHOLES)(spot=data["spot"], r=0.03, d=0.01, sigma=data["sigma"]))
+        arg = np.array([80.0, 100.0, 125.0]) if data["strike_shape"] == "vector" else 80.0
+        try:
+            print(data["quote"], "->", getattr(cf, data["quote"])(arg, data["maturity"]))
+            return 0
+        except Exception as e:  # noqa
+            print(f"raises {type(e).__name__}: {e}")
+            return 1
     if data.get("kind") != "differential":
         print("replay: re-run ./check C18 to re-evaluate this class of input")
         return 1
@@ -551,14 +614,18 @@ def replay(path):
 
 
 LEVEL_TEXT = ("Proof, PARTIAL: Coq theorems (over R with Coquelicot; standard real-number and classical axioms only) about the py2coq "
-              "translation of the current source state that (1) call - put = df*(fwd - K) is an identity of the definitions of "
-              "COSPricer.call/forward, FFTPricer.put and CFBlackScholes.call/put (both branches, any symmetric Phi), (2) COSPricer.xi and "
-              "psi are the exact integrals of e^y cos(k pi (y-a)/(b-a)) and cos(...) for every real k incl. k=0, so the put and digital "
-              "coefficients are the exact cosine coefficients of the payoffs, independently of the uninitialised cells of np.divide, "
-              "(3) the FFT weights are eta/3*(1,4,2,4,...), (4) the VG map C=1/nu, G=lambda_-, M=lambda_+, Y=0 makes the CGMY and VG "
-              "exponents equal, (5) closed-form upper bounds and degenerate branch, (6) cdf = 1 - digital/df, (7) the COS pricing sum is the integral of the payoff against the density reconstructed from the same coefficients, hence put and digital are >= 0 whenever that density is. Model and implementation "
-              "are tied by ~60 Interval/integral case lemmas per run. NOT proved and reported only as differential TESTS over a documented "
-              "box: truncation error, non-negative density, no-arbitrage shape in the strike, COS/FFT/closed-form agreement.")
+              "translation of the current source state that (1) the forward of every exponential model is S e^{(r-d)T} (omega = -kappa(1)) "
+              "and hence the parity legs of COS / FFT / closed form equal S e^{-dT} - K e^{-rT} -- for COS and FFT the option leg is computed BY "
+              "parity in the code, so only the forward leg carries content; (2) COSPricer.xi and psi are the exact integrals of e^y cos(k pi "
+              "(y-a)/(b-a)) and cos(...) for every real k incl. k=0, so the put and digital coefficients are the exact cosine coefficients of "
+              "the payoffs, independently of the uninitialised cells of np.divide, (3) the FFT weights are eta/3*(1,4,2,4,...), (4) the VG map "
+              "C=1/nu, G=lambda_-, M=lambda_+, Y=0 gives raw exponents differing by theta*u and identical exponential models (real argument), "
+              "(5) closed-form upper bounds and degenerate branch over an abstract symmetric Phi (the Gaussian integral is proved symmetric, not "
+              "[0,1]-valued/monotone), (6) cdf = 1 - digital/df, (7) the COS pricing sum is the integral of the payoff against the cosine series "
+              "built from the same numbers (COSPricer.density only at K = S); put, digital >= 0 IF that series is >= 0 (never discharged). "
+              "Model and implementation are tied by ~70 Interval/integral case lemmas per run. NOT proved and reported only as differential "
+              "TESTS over a documented box: every price bound, monotonicity/convexity in the strike, digital bounds/monotonicity, density "
+              "non-negative and integrating to one, truncation error, COS/FFT/closed-form and VG/CGMY price agreement.")
 LEVEL_NOTE = ("Trusted: Coq kernel, Coquelicot, Interval (reflexive interval arithmetic inside vm_compute); stdlib real/classical axioms; "
-              "py2coq incl. its pointwise reading of numpy code; the differential tests are tests.")
+              "py2coq incl. its pointwise reading of numpy code and the substitution 1j*x -> u; the differential tests are tests.")
 TECHNIQUE = "Coq proof over R (Coquelicot is_RInt_derive/auto_derive, field) on py2coq-generated formulas + Interval case lemmas + differential tests"
